@@ -44,82 +44,9 @@ Proof.
     + intros H w Hw. apply H. right. exact Hw.
 Qed.
 
-Section Weights.
-  Variable eqvb : shape -> shape -> bool.
-  Variable eqv : shape -> shape -> Prop.
-  Hypothesis eqv_spec : forall a b, eqvb a b = true <-> eqv a b.
-
-  Definition weights_gen (data : list shape) (weights : list (option shape)) : bool :=
-    if existsb is_some weights then
-      Nat.eqb (length weights) (length data) &&
-      forallb (fun w => match w with
-                        | None => match data with [] => true | _ => false end
-                        | Some ws => forallb (fun d => eqvb ws d) data
-                        end) weights
-    else true.
-
-  Lemma weights_gen_iff : forall d w, weights_gen d w = true <-> weights_match eqv d w.
-  Proof.
-    intros d w. unfold weights_gen, weights_match.
-    destruct (existsb is_some w) eqn:Ex.
-    - rewrite andb_true_iff, Nat.eqb_eq, forallb_forall. split.
-      + intros [Hl H]. right. split; [exact Hl|]. intros x Hx. specialize (H x Hx).
-        destruct x as [ws|].
-        * left. exists ws. split; [reflexivity|]. intros y Hy.
-          rewrite forallb_forall in H. apply eqv_spec. apply H. exact Hy.
-        * right. split; [reflexivity|]. destruct d; [reflexivity|discriminate].
-      + intros [H|[Hl H]].
-        * apply existsb_is_some_false in H. congruence.
-        * split; [exact Hl|]. intros x Hx. destruct (H x Hx) as [(ws & -> & Hd)|[-> ->]].
-          -- apply forallb_forall. intros y Hy. apply eqv_spec. apply Hd. exact Hy.
-          -- reflexivity.
-    - split; [|reflexivity]. intros _. left. apply existsb_is_some_false. exact Ex.
-  Qed.
-End Weights.
-
-Lemma weights_ok_iff : forall d w, weights_ok d w = true <-> weights_match same_size d w.
+Lemma fitsb_iff : forall ws d, fitsb ws d = true <-> weight_fits ws d.
 Proof.
-  intros d w. change (weights_ok d w) with (weights_gen (fun a b => Nat.eqb (size a) (size b)) d w).
-  apply weights_gen_iff. intros a b. apply Nat.eqb_eq.
-Qed.
-
-Lemma weights_strict_iff : forall d w, weights_strict d w = true <-> weights_match eq d w.
-Proof.
-  intros d w. change (weights_strict d w) with (weights_gen shape_eqb d w).
-  apply weights_gen_iff. exact shape_eqb_eq.
-Qed.
-
-(** check_fit_input accepts exactly: coordinates of one shape, every data
-    component of that shape, and weights absent or one per component with the
-    component's SIZE *)
-Theorem check_fit_input_iff : forall c d w,
-  check_fit_input c d w = true <-> fit_input_consistent_by same_size c d w.
-Proof.
-  intros c d w. unfold check_fit_input, fit_input_consistent_by.
-  rewrite !andb_true_iff, check_coordinates_iff, data_ok_iff, weights_ok_iff. tauto.
-Qed.
-
-Theorem fit_input_strict_iff : forall c d w,
-  fit_input_strict c d w = true <-> fit_input_consistent_by eq c d w.
-Proof.
-  intros c d w. unfold fit_input_strict, fit_input_consistent_by.
-  rewrite !andb_true_iff, check_coordinates_iff, data_ok_iff, weights_strict_iff. tauto.
-Qed.
-
-Lemma weights_match_mono : forall (p q : shape -> shape -> Prop) d w,
-  (forall a b, p a b -> q a b) -> weights_match p d w -> weights_match q d w.
-Proof.
-  intros p q d w Hpq [H|[Hl H]]; [left; exact H|right]. split; [exact Hl|].
-  intros x Hx. destruct (H x Hx) as [(ws & E & Hd)|E]; [left|right; exact E].
-  exists ws. split; [exact E|]. intros y Hy. apply Hpq. apply Hd. exact Hy.
-Qed.
-
-(** everything that is consistent in the strict sense is accepted ... *)
-Theorem strict_accepted : forall c d w,
-  fit_input_consistent_by eq c d w -> check_fit_input c d w = true.
-Proof.
-  intros c d w (H1 & H2 & H3). apply check_fit_input_iff. split; [exact H1|split; [exact H2|]].
-  eapply weights_match_mono; [|exact H3]. intros a b ->. reflexivity.
+  intros ws d. unfold fitsb, weight_fits. rewrite orb_true_iff, !shape_eqb_eq. tauto.
 Qed.
 
 Lemma forallb_false_witness : forall {A} (f : A -> bool) l,
@@ -131,25 +58,85 @@ Proof.
   - destruct (IH H) as (z & Hz & E). exists z. split; [right; exact Hz|exact E].
 Qed.
 
-(** ... and the code accepts more than that exactly when some weight array
-    has the size but not the shape of the data (finding candidate F9) *)
+Lemma weights_ok_iff : forall d w, weights_ok d w = true <-> weights_match d w.
+Proof.
+  intros d w. unfold weights_ok, weights_match. destruct (existsb is_some w) eqn:Ex.
+  - rewrite andb_true_iff, Nat.eqb_eq, forallb_forall. split.
+    + intros [Hl H]. right. split; [exact Hl|]. intros x y Hx Hy. specialize (H x Hx).
+      rewrite forallb_forall in H. apply fitsb_iff. apply H. exact Hy.
+    + intros [H|[Hl H]].
+      * apply existsb_is_some_false in H. congruence.
+      * split; [exact Hl|]. intros x Hx. apply forallb_forall. intros y Hy. apply fitsb_iff. apply H; assumption.
+  - split; [|reflexivity]. intros _. left. apply existsb_is_some_false. exact Ex.
+Qed.
+
+Lemma weights_strict_iff : forall d w, weights_strict d w = true <-> weights_match_strict d w.
+Proof.
+  intros d w. unfold weights_strict, weights_match_strict. destruct (existsb is_some w) eqn:Ex.
+  - rewrite andb_true_iff, Nat.eqb_eq, forallb_forall. split.
+    + intros [Hl H]. right. split; [exact Hl|]. intros x Hx. specialize (H x Hx).
+      destruct x as [ws|]; [|discriminate]. exists ws. split; [reflexivity|].
+      rewrite forallb_forall in H. intros y Hy. apply fitsb_iff. apply H. exact Hy.
+    + intros [H|[Hl H]].
+      * apply existsb_is_some_false in H. congruence.
+      * split; [exact Hl|]. intros x Hx. destruct (H x Hx) as (ws & -> & Hd).
+        apply forallb_forall. intros y Hy. apply fitsb_iff. apply Hd. exact Hy.
+  - split; [|reflexivity]. intros _. left. apply existsb_is_some_false. exact Ex.
+Qed.
+
+(** check_fit_input accepts exactly: coordinates of one shape, every data
+    component of that shape, and weights absent or one per component, each
+    with the component's shape or its raveled 1-D form (a None among arrays
+    counting as a 0-d array) *)
+Theorem check_fit_input_iff : forall c d w,
+  check_fit_input c d w = true <-> fit_input_consistent c d w.
+Proof.
+  intros c d w. unfold check_fit_input, fit_input_consistent.
+  rewrite !andb_true_iff, check_coordinates_iff, data_ok_iff, weights_ok_iff. tauto.
+Qed.
+
+Theorem fit_input_strict_iff : forall c d w,
+  fit_input_strict c d w = true <-> fit_input_consistent_strict c d w.
+Proof.
+  intros c d w. unfold fit_input_strict, fit_input_consistent_strict.
+  rewrite !andb_true_iff, check_coordinates_iff, data_ok_iff, weights_strict_iff. tauto.
+Qed.
+
+(** everything that is consistent in the strict sense is accepted ... *)
+Theorem strict_accepted : forall c d w,
+  fit_input_consistent_strict c d w -> check_fit_input c d w = true.
+Proof.
+  intros c d w (H1 & H2 & H3). apply check_fit_input_iff. split; [exact H1|split; [exact H2|]].
+  destruct H3 as [H|[Hl H]]; [left; exact H|right]. split; [exact Hl|].
+  intros x y Hx Hy. destruct (H x Hx) as (ws & -> & Hd). apply Hd. exact Hy.
+Qed.
+
+(** ... every accepted weight ARRAY is aligned with every data component (no
+    same-size-other-shape gap any more) ... *)
+Theorem accepted_weights_aligned : forall c d w ws dd,
+  check_fit_input c d w = true -> In (Some ws) w -> In dd d -> weight_fits ws dd.
+Proof.
+  intros c d w ws dd H Hw Hd. apply check_fit_input_iff in H as (_ & _ & [H|[_ H]]).
+  - specialize (H _ Hw). discriminate.
+  - apply (H (Some ws) dd Hw Hd).
+Qed.
+
+(** ... and the only input accepted beyond the strict specification is a None
+    among weight arrays when every data component is a 0-d array *)
 Theorem fit_input_gap : forall c d w,
   check_fit_input c d w = true -> fit_input_strict c d w = false ->
-  exists ws dd, In (Some ws) w /\ In dd d /\ size ws = size dd /\ ws <> dd.
+  In None w /\ existsb is_some w = true /\ forall dd, In dd d -> dd = [].
 Proof.
   intros c d w Hc Hs. unfold check_fit_input, fit_input_strict in *.
   apply andb_true_iff in Hc as [Hc Hw]. rewrite Hc in Hs. cbn in Hs.
   unfold weights_ok, weights_strict in *.
-  destruct (existsb is_some w); [|discriminate].
+  destruct (existsb is_some w) eqn:Ex; [|discriminate].
   apply andb_true_iff in Hw as [Hl Hw]. rewrite Hl in Hs. cbn in Hs.
   rewrite forallb_forall in Hw.
   destruct (forallb_false_witness _ _ Hs) as (x & Hx & E).
-  specialize (Hw x Hx). destruct x as [ws|]; [|congruence].
-  rewrite forallb_forall in Hw.
-  destruct (forallb_false_witness _ _ E) as (dd & Hd & E2).
-exists ws, dd. split; [exact Hx|split; [exact Hd|]].
-  split; [apply Nat.eqb_eq; apply Hw; exact Hd|].
-  intro Heq. apply shape_eqb_eq in Heq. congruence.
+  specialize (Hw x Hx). destruct x as [ws|]; [cbn in Hw; congruence|].
+  split; [exact Hx|split; [reflexivity|]]. intros dd Hd. cbn in Hw. rewrite forallb_forall in Hw.
+  specialize (Hw dd Hd). apply fitsb_iff in Hw. destruct Hw as [Hw|Hw]; [symmetry; exact Hw|discriminate].
 Qed.
 
 Theorem check_data_names_iff : forall n names,
@@ -192,9 +179,15 @@ Proof.
 Qed.
 
 Theorem vectorspline_fit_iff : forall c d w,
-  vectorspline_fit c d w = true <-> fit_input_consistent_by same_size c d w /\ length d = 2.
+  vectorspline_fit c d w = true <-> fit_input_consistent c d w /\ length d = 2.
 Proof.
   intros c d w. unfold vectorspline_fit. rewrite andb_true_iff, check_fit_input_iff, Nat.eqb_eq. tauto.
+Qed.
+
+Theorem vector_fit_iff : forall n c d w,
+  vector_fit n c d w = true <-> fit_input_consistent c d w /\ length d = n.
+Proof.
+  intros n c d w. unfold vector_fit. rewrite andb_true_iff, check_fit_input_iff, Nat.eqb_eq. tauto.
 Qed.
 
 (** meaning of an [ok] verdict of the malformed stream *)
@@ -210,8 +203,10 @@ Qed.
 (** strictly consistent calls are accepted by the code (no false rejections) *)
 Theorem consistent_accepted : forall c, consistentb c = true -> run c = true.
 Proof.
-  intros [co d w|co|n nm|n nm|r|r sh sp|sh sp|co d w]; cbn; try (intro H; exact H).
+  intros [co d w|co|n nm|n nm|r|r sh sp|sh sp|co d w|k co d w]; cbn; try (intro H; exact H).
   - intro H. apply strict_accepted. apply fit_input_strict_iff. exact H.
   - intro H. apply andb_true_iff in H as [H1 H2]. unfold vectorspline_fit. rewrite H2, andb_true_r.
+    apply strict_accepted. apply fit_input_strict_iff. exact H1.
+  - intro H. apply andb_true_iff in H as [H1 H2]. unfold vector_fit. rewrite H2, andb_true_r.
     apply strict_accepted. apply fit_input_strict_iff. exact H1.
 Qed.
